@@ -200,6 +200,7 @@ def eta_expand_constructors(body, log_rules):
     return pat.sub(sub, body)
 
 
+FEATURES_RULE = [False]            # set per unit by the directive `//@features default` (see render)
 FEATURES_ON = ("std", "hash")     # the default feature set of the crate; the no_std / no-hash builds are Kani unit IO1 / E5's business
 
 
@@ -263,7 +264,8 @@ def apply_rules(body, profile, log_rules):
     ctr = [0]
     body = strip_cfg_debug(body, profile, log_rules)
     body = rev_range_to_while(body, log_rules)
-    body = strip_cfg_features(body, log_rules)
+    if FEATURES_RULE[0]:
+        body = strip_cfg_features(body, log_rules)
     body = eta_expand_constructors(body, log_rules)
     body = enumerate_to_index(body, log_rules)
     body = for_continue_to_while(body, log_rules)
@@ -406,6 +408,7 @@ REACH = False   # when True, render() plants `assert(false)` at the start of eve
 
 def render(vu):
     """returns (generated_text, fn_ranges [(first_line, last_line, obligation_id, kind)], extraction_log)"""
+    FEATURES_RULE[0] = bool(re.search(r"^//@features default", vu.text, re.M))
     lines = expand_includes(vu.text).split("\n")
     out = []
     ranges = []
